@@ -242,8 +242,7 @@ theorem expand_group (tbl : List (List XNode)) : ∀ (acc : List Item) (ks : Lis
   induction acc, ks using groupAll.induct with
   | case1 acc => simp only [groupAll, expandGAll_flushRun, expandAllE, List.append_nil]
   | case2 acc t r ih =>
-    simp only [groupAll, ih, expandItems_append, expandItems, expandAllE, expandE, List.append_nil,
-      List.append_assoc, List.cons_append, List.nil_append]
+    simp only [groupAll, ih, expandItems_append, expandItems, expandAllE, expandE, List.append_assoc, List.cons_append, List.nil_append]
   | case3 acc i r ih =>
     simp only [groupAll, ih, expandItems_append, expandItems, expandAllE, expandE, List.append_nil,
       List.append_assoc]
@@ -403,16 +402,21 @@ theorem flushP_eq (p : Option Bytes) :
 theorem mergeList_eq : ∀ (xs : List XNode) (p : Option Bytes),
     mergeList p xs = (mergeAcc p xs).1 ++ flushP (mergeAcc p xs).2
   | [], p => by
-    rw [mergeList, flushP_eq]
-    rfl
+    rw [mergeList.eq_def]
+    cases p <;> rfl
   | .text b :: r, p => by
-    rw [mergeList, mergeAcc, mergeList_eq r]
+    rw [mergeList.eq_def, mergeAcc]
+    exact mergeList_eq r _
   | .comment c :: r, p => by
-    rw [mergeList, mergeAcc, mergeList_eq r, flushP_eq]
-    simp only [List.append_assoc, List.cons_append]
+    rw [mergeList.eq_def, mergeAcc]
+    simp only
+    rw [mergeList_eq r]
+    cases p <;> simp only [flushP, List.cons_append, List.nil_append]
   | .elem n as ks :: r, p => by
-    rw [mergeList, mergeAcc, mergeList_eq r, flushP_eq]
-    simp only [List.append_assoc, List.cons_append]
+    rw [mergeList.eq_def, mergeAcc]
+    simp only
+    rw [mergeList_eq r]
+    cases p <;> simp only [flushP, List.cons_append, List.nil_append]
 
 theorem mergeAcc_append : ∀ (xs ys : List XNode) (p : Option Bytes),
     mergeAcc p (xs ++ ys) =
@@ -458,7 +462,9 @@ theorem cnt_eq (p : Option Bytes) (xs : List XNode) : cnt (mergeAcc p xs) = coun
 /-- a pending run stays or becomes a node -/
 theorem cnt_pending : ∀ (xs : List XNode) (p : Option Bytes),
     (if p.isSome then 1 else 0) ≤ cnt (mergeAcc p xs)
-  | [], p => by simp [mergeAcc, cnt, countAll]
+  | [], p => by
+    simp only [mergeAcc, cnt, countAll, Nat.zero_add]
+    exact Nat.le_refl _
   | .text b :: r, p => by
     rw [mergeAcc]
     have := cnt_pending r (some (p.getD [] ++ b))
@@ -479,6 +485,16 @@ theorem cnt_append (xs ys : List XNode) (p : Option Bytes) :
 
 /-! ### The tables, entry by entry -/
 
+theorem snoc_induction {α} {P : List α → Prop} (nil : P [])
+    (append_singleton : ∀ l a, P l → P (l ++ [a])) : ∀ l, P l := by
+  intro l
+  rw [← List.reverse_reverse l]
+  induction l.reverse with
+  | nil => exact nil
+  | cons a r ih =>
+    rw [List.reverse_cons]
+    exact append_singleton _ _ ih
+
 theorem expandTable_snoc (ents : List (List ENode)) (v : List ENode) :
     expandTable (ents ++ [v]) = expandTable ents ++ [expandAllE (expandTable ents) v] := by
   simp [expandTable, List.foldl_append]
@@ -489,13 +505,13 @@ theorem forestTable_snoc (ents : List (List ENode)) (v : List ENode) :
 
 theorem expandTable_length : ∀ (ents : List (List ENode)), (expandTable ents).length = ents.length := by
   intro ents
-  induction ents using List.reverseRecOn with
+  induction ents using snoc_induction with
   | nil => rfl
   | append_singleton l v ih => rw [expandTable_snoc]; simp [ih]
 
 theorem forestTable_length : ∀ (ents : List (List ENode)), (forestTable ents).length = ents.length := by
   intro ents
-  induction ents using List.reverseRecOn with
+  induction ents using snoc_induction with
   | nil => rfl
   | append_singleton l v ih => rw [forestTable_snoc]; simp [ih]
 
@@ -537,6 +553,27 @@ mutual
       simp only [forestAllE, forestE_stable tbl more k h.1, forestAllE_stable tbl more ks h.2]
 end
 
+mutual
+  theorem okE_mono {a b : Nat} (hab : a ≤ b) : ∀ (k : ENode), okE a k = true → okE b k = true
+    | .elem n as ks, h => by
+      simp only [okE, Bool.and_eq_true] at h ⊢
+      exact ⟨h.1, okAllE_mono' hab ks h.2⟩
+    | .comment c, h => by simpa only [okE] using h
+    | .text t, h => by simpa only [okE] using h
+    | .ref i, h => by
+      simp only [okE, decide_eq_true_eq] at h ⊢
+      omega
+  theorem okAllE_mono' {a b : Nat} (hab : a ≤ b) : ∀ (ks : List ENode), okAllE a ks = true →
+      okAllE b ks = true
+    | [], _ => by simp only [okAllE]
+    | k :: ks, h => by
+      simp only [okAllE, Bool.and_eq_true] at h ⊢
+      exact ⟨okE_mono hab k h.1, okAllE_mono' hab ks h.2⟩
+end
+
+theorem okAllE_mono {a b : Nat} {ks : List ENode} (h : okAllE a ks = true) (hab : a ≤ b) :
+    okAllE b ks = true := okAllE_mono' hab ks h
+
 /-- what `entsOkFrom` says of each entry -/
 theorem entsOk_get : ∀ (ents : List (List ENode)) (i : Nat), entsOkFrom i ents = true →
     ∀ j (hj : j < ents.length), okAllE (i + j) ents[j] = true ∧ (renderAllE ents[j]).contains 39 = false
@@ -557,7 +594,7 @@ theorem entsOk_take (ents : List (List ENode)) (h : entsOkFrom 0 ents = true) :
     ∀ j (hj : j < ents.length),
       (expandTable ents)[j]? = some (expandAllE (expandTable ents) ents[j]) ∧
       (forestTable ents)[j]? = some (forestAllE (forestTable ents) ents[j]) := by
-  induction ents using List.reverseRecOn with
+  induction ents using snoc_induction with
   | nil => intro j hj; simp at hj
   | append_singleton l v ih =>
     intro j hj
